@@ -101,7 +101,9 @@ def run(tier, seed):
     samples = []
     history = []
     fixed = [{"stmts": [["ascii", ASCII_TEXT], ["db", {"values": [1], "text": "1"}]], "start": 0x008000},  # every printable character at once (backslash, quotes, brackets, ;)
-             {"stmts": [["ascii", "C:\\SNES\\rom.sfc"], ["ascii", "a\\b\\\\c"]], "start": 0x00FFF0}]
+             {"stmts": [["ascii", "C:\\SNES\\rom.sfc"], ["ascii", "a\\b\\\\c"]], "start": 0x00FFF0},
+             # texts that look like something else to a helper shared with path directives: home-directory / environment / glob / escape syntax
+             {"stmts": [["ascii", "~/SAVE 1"], ["ascii", "~"], ["ascii", "$HOME %PATH% *.bin"], ["ascii", "~root/x"]], "start": 0x008000}]
     for i in range(n):
         case = fixed[i] if i < len(fixed) else gen_case(rng, big=(i % 5 == 0))
         case["last"] = i == n - 1
@@ -113,7 +115,7 @@ def run(tier, seed):
             failures.append({"ident": "bounded/data-directives", "script": "b_C07.py", "payload": dict(case, history=[h for h in history if any(k == "incbin" for k, _ in h["stmts"])][-6:]), "observed": f})
         history.append(case)
     return {"evaluations": n, "distinct_nontrivial": len(distinct),
-            "rule": "two fixed .ascii programs holding every printable character, then seeded programs of 1-4 data directives (.db/.dw/.dl/.pointer lists with boundary, negative and over-wide values in several "
+            "rule": "three fixed .ascii programs holding every printable character and path-like texts, then seeded programs of 1-4 data directives (.db/.dw/.dl/.pointer lists with boundary, negative and over-wide values in several "
                     "literal styles and separators, .ascii, .incbin of real temp files incl. lengths crossing bank ends) at window-edge start "
                     "addresses; output bytes, first offset, trailing label and incbin symbols compared with the statement's definition",
             "samples": samples, "failures": failures}
